@@ -4,6 +4,7 @@ import (
 	"fmt"
 	"go/token"
 	"go/types"
+	"sort"
 	"strings"
 
 	"golang.org/x/tools/go/ssa"
@@ -62,74 +63,13 @@ func c02extra(p *Program, r *Report) {
 	}
 	r.Floor("C02.bits", 1)
 
+	wholeInputRule(p, r, "C02.whole")
 	da := p.Func("", "DecodeAddress")
 	cash := p.Func("", "checkDecodeCashAddress")
 	if da == nil || cash == nil {
-		r.Unresolved("C02.whole", "DecodeAddress / checkDecodeCashAddress")
 		return
 	}
-	// ---- C02.whole
-	addr := ssa.Value(da.Params[0])
-	var wholeOK func(v ssa.Value, seen map[ssa.Value]bool) (bool, string)
-	wholeOK = func(v ssa.Value, seen map[ssa.Value]bool) (bool, string) {
-		if seen[v] {
-			return true, ""
-		}
-		seen[v] = true
-		if v == addr {
-			return true, ""
-		}
-		switch x := v.(type) {
-		case *ssa.Const:
-			return true, ""
-		case *ssa.Phi:
-			for _, e := range x.Edges {
-				if ok, why := wholeOK(e, seen); !ok {
-					return false, why
-				}
-			}
-			return true, ""
-		case *ssa.BinOp:
-			if x.Op == token.ADD {
-				if ok, why := wholeOK(x.X, seen); !ok {
-					return false, why
-				}
-				return wholeOK(x.Y, seen)
-			}
-		case *ssa.UnOp:
-			if _, _, ok := fieldLoad(x); ok {
-				return true, "" // a prefix field of the network parameters
-			}
-		case *ssa.Call:
-			cal := x.Call.StaticCallee()
-			if cal != nil && p.InRepo(cal) && len(x.Call.Args) == 1 {
-				// in-repo lowering helper: must take the parameter itself
-				if x.Call.Args[0] == addr {
-					return true, ""
-				}
-				return false, "the case-folding helper is applied to " + exprString(x.Call.Args[0]) + ", a part of the input"
-			}
-		case *ssa.Slice:
-			return false, "a slice of the input, " + exprString(x) + ", is decoded instead of the whole string"
-		}
-		return false, "unrecognised construction " + exprString(v)
-	}
-	nW := 0
-	for _, b := range da.Blocks {
-		for _, in := range b.Instrs {
-			c, ok := in.(*ssa.Call)
-			if !ok || c.Call.StaticCallee() != cash {
-				continue
-			}
-			nW++
-			ok2, why := wholeOK(c.Call.Args[0], map[ssa.Value]bool{})
-			r.Add("C02.whole", FnName(da), "the CashAddr decoder is given the whole input (as is, or prefix + ':' + lower-cased input)", c.Pos(), ok2, why)
-		}
-	}
-	if nW == 0 {
-		r.Unresolved("C02.whole", "calls of checkDecodeCashAddress in DecodeAddress")
-	}
-	r.Floor("C02.whole", 2)
+	_ = cash
 
 	// ---- C02.registry
 	var lookups []*ssa.Call
@@ -247,4 +187,206 @@ func observedBits(v ssa.Value) (int, string) {
 	}
 	walk(st{v, 0xff, 0})
 	return observed, strings.Join(dedup(notes), "; ")
+}
+
+// wholeInputRule: what DecodeAddress hands to the CashAddr decoder is the whole input — as is, or prefix + ':' +
+// the case-folded input (filed under C02.whole, and under C03.inject: the decoder's mixed-case test only protects
+// what reaches it unfolded).
+func wholeInputRule(p *Program, r *Report, rule string) {
+	da := p.Func("", "DecodeAddress")
+	cash := p.Func("", "checkDecodeCashAddress")
+	if da == nil || cash == nil {
+		r.Unresolved(rule, "DecodeAddress / checkDecodeCashAddress")
+		return
+	}
+	// ---- C02.whole
+	addr := ssa.Value(da.Params[0])
+	var wholeOK func(v ssa.Value, seen map[ssa.Value]bool) (bool, string)
+	afterPrefix := map[ssa.Value]bool{} // values that appear to the right of a `+` (behind the prepended prefix)
+	wholeOK = func(v ssa.Value, seen map[ssa.Value]bool) (bool, string) {
+		if seen[v] {
+			return true, ""
+		}
+		seen[v] = true
+		if v == addr {
+			return true, ""
+		}
+		switch x := v.(type) {
+		case *ssa.Const:
+			return true, ""
+		case *ssa.Phi:
+			for _, e := range x.Edges {
+				if ok, why := wholeOK(e, seen); !ok {
+					return false, why
+				}
+			}
+			return true, ""
+		case *ssa.BinOp:
+			if x.Op == token.ADD {
+				if ok, why := wholeOK(x.X, seen); !ok {
+					return false, why
+				}
+				afterPrefix[x.Y] = true
+				return wholeOK(x.Y, seen)
+			}
+		case *ssa.UnOp:
+			if _, _, ok := fieldLoad(x); ok {
+				return true, "" // a prefix field of the network parameters
+			}
+		case *ssa.Call:
+			cal := x.Call.StaticCallee()
+			if cal != nil && p.InRepo(cal) && len(x.Call.Args) == 1 {
+				// in-repo lowering helper: must take the parameter itself
+				if x.Call.Args[0] == addr {
+					if !afterPrefix[v] {
+						return false, "the case-folded input is decoded without a prepended prefix: a mixed-case string that carries its own prefix is folded before the decoder's mixed-case test sees it"
+					}
+					return true, ""
+				}
+				return false, "the case-folding helper is applied to " + exprString(x.Call.Args[0]) + ", a part of the input"
+			}
+		case *ssa.Slice:
+			return false, "a slice of the input, " + exprString(x) + ", is decoded instead of the whole string"
+		}
+		return false, "unrecognised construction " + exprString(v)
+	}
+	nW := 0
+	for _, b := range da.Blocks {
+		for _, in := range b.Instrs {
+			c, ok := in.(*ssa.Call)
+			if !ok || c.Call.StaticCallee() != cash {
+				continue
+			}
+			nW++
+			ok2, why := wholeOK(c.Call.Args[0], map[ssa.Value]bool{})
+			r.Add(rule, FnName(da), "the CashAddr decoder is given the whole input (as is, or prefix + ':' + lower-cased input)", c.Pos(), ok2, why)
+		}
+	}
+	if nW == 0 {
+		r.Unresolved(rule, "calls of checkDecodeCashAddress in DecodeAddress")
+	}
+	r.Floor(rule, 2)
+}
+
+// prefixWindowRule: wherever the address decoder compares a piece of its input with a network prefix P (EqualFold,
+// HasPrefix, ==), the piece is cut with bounds that depend on len(P) of that same P — not on the length of the other
+// prefix of the network.  A window sized by the SLP prefix and compared with the cash prefix works while the SLP
+// prefix is the longer one and silently stops recognising prefix-qualified strings on a network where it is not
+// (simnet has no SLP prefix at all).
+func prefixWindowRule(p *Program, r *Report, rule string) {
+	da := p.Func("", "DecodeAddress")
+	if da == nil {
+		r.Unresolved(rule, "DecodeAddress")
+		return
+	}
+	n := 0
+	for _, fn := range p.Reachable([]*ssa.Function{da}) {
+		if fn.Pkg != da.Pkg {
+			continue
+		}
+		var ident func(v ssa.Value, depth int) string
+		ident = func(v ssa.Value, depth int) string {
+			if depth > 4 {
+				return ""
+			}
+			switch x := v.(type) {
+			case *ssa.Parameter:
+				if isStringType(x.Type()) && x != fn.Params[0] {
+					return "parameter " + x.Name()
+				}
+			case *ssa.UnOp:
+				if f, _, ok := fieldLoad(x); ok && strings.HasSuffix(f.Name(), "Prefix") {
+					return "field " + f.Name()
+				}
+			case *ssa.BinOp:
+				if x.Op == token.ADD {
+					if id := ident(x.X, depth+1); id != "" {
+						return id
+					}
+				}
+			}
+			return ""
+		}
+		// prefix lengths a value depends on
+		var lensIn func(v ssa.Value, out map[string]bool, depth int)
+		lensIn = func(v ssa.Value, out map[string]bool, depth int) {
+			if v == nil || depth > 8 {
+				return
+			}
+			switch x := v.(type) {
+			case *ssa.Call:
+				if isBuiltin(&x.Call, "len") {
+					if id := ident(x.Call.Args[0], 0); id != "" {
+						out[id] = true
+					}
+					return
+				}
+				// a position found by searching a window: depends on what the window depends on
+				for _, a := range x.Call.Args {
+					lensIn(a, out, depth+1)
+				}
+			case *ssa.BinOp:
+				lensIn(x.X, out, depth+1)
+				lensIn(x.Y, out, depth+1)
+			case *ssa.Convert:
+				lensIn(x.X, out, depth+1)
+			case *ssa.Slice:
+				lensIn(x.X, out, depth+1)
+				lensIn(x.High, out, depth+1)
+				lensIn(x.Low, out, depth+1)
+			case *ssa.Phi:
+				for _, e := range x.Edges {
+					lensIn(e, out, depth+1)
+				}
+			}
+		}
+		for _, b := range fn.Blocks {
+			for _, in := range b.Instrs {
+				var a0, a1 ssa.Value
+				var pos token.Pos
+				switch x := in.(type) {
+				case *ssa.Call:
+					name := calleeName(&x.Call)
+					if name != "strings.EqualFold" && name != "strings.HasPrefix" {
+						continue
+					}
+					a0, a1, pos = x.Call.Args[0], x.Call.Args[1], x.Pos()
+				case *ssa.BinOp:
+					if (x.Op != token.EQL && x.Op != token.NEQ) || !isStringType(x.X.Type()) {
+						continue
+					}
+					a0, a1, pos = x.X, x.Y, x.Pos()
+				default:
+					continue
+				}
+				for _, pr := range [][2]ssa.Value{{a0, a1}, {a1, a0}} {
+					P := ident(pr[1], 0)
+					if P == "" {
+						continue
+					}
+					if _, isSl := pr[0].(*ssa.Slice); !isSl {
+						continue
+					}
+					deps := map[string]bool{}
+					lensIn(pr[0], deps, 0)
+					n++
+					var foreign []string
+					for d := range deps {
+						if d != P {
+							foreign = append(foreign, d)
+						}
+					}
+					sort.Strings(foreign)
+					how := "the piece compared with " + P + " is cut with bounds that depend on len(" + P + ") only"
+					if len(foreign) > 0 {
+						how = "the piece compared with " + P + " is cut with bounds that depend on the length of " + strings.Join(foreign, ", ") + ": on a network where that one is shorter the comparison can never succeed"
+					}
+					r.Add(rule, FnName(fn), "a piece of the input compared with a network prefix is as long as that prefix", pos, len(foreign) == 0, how)
+				}
+			}
+		}
+	}
+	if n == 0 {
+		r.Note("%s: no comparison of an input window with a network prefix found below DecodeAddress", rule)
+	}
 }
